@@ -347,7 +347,8 @@ theorem follow_legs (m : SuccMap) : ∀ (fuel node : Nat) (acc : List Nat), acc.
 theorem tryPath_some {path : List Nat} {bs js : List Edge} {q : List Nat} (h : tryPath path bs js = some q) :
     ∃ start, path.head? = some start ∧
       q = follow (walk (surgery path bs js).length (surgery path bs js) start []) path.length start [start] ∧
-      q.length = path.length ∧ path.length ≤ (surgery path bs js).length := by
+      q.length = path.length ∧ path.length ≤ (surgery path bs js).length ∧
+      (walk (surgery path bs js).length (surgery path bs js) start []).length = path.length := by
   unfold tryPath at h
   simp only at h
   split at h
@@ -358,10 +359,11 @@ theorem tryPath_some {path : List Nat} {bs js : List Edge} {q : List Nat} (h : t
     · rename_i start hs
       split at h
       · cases h
-      · split at h
+      · rename_i hm
+        split at h
         · rename_i hq
           simp only [Option.some.injEq] at h
-          refine ⟨start, hs, h.symm, ?_, by omega⟩
+          refine ⟨start, hs, h.symm, ?_, by omega, by simpa using hm⟩
           rw [← h]; simpa using hq
         · cases h
 
